@@ -127,7 +127,8 @@ rfbInitOneRGBTableOUT (OUT_T *table, int inMax, int outMax, int outShift,
 
     for (i = 0; i < nEntries; i++) {
         if (outShift < 32) {
-            table[i] = ((OUT_T)((i * outMax + inMax / 2) / inMax)) << outShift;
+            /* unsigned: 65535 * 65535 + 32767 does not fit an int */
+            table[i] = ((OUT_T)(((uint32_t)i * outMax + inMax / 2) / inMax)) << outShift;
         } else {
             table[i] = 0;
         }
